@@ -211,7 +211,7 @@ func TestVerifC18(t *testing.T) {
 	defer rep.Finish(t)
 	rep.Rule = "message sequences x writer kind (varint/uint32be/uint32le) x marshal path x chunking of the byte stream " +
 		"(every composition of the stream length for streams <= 14 bytes, seeded random chunkings beyond, (n>0,EOF) and (0,nil) reads); " +
-		"every stream is read both into fresh messages and into one reused message object; hostile streams: truncation at every offset, oversize/malformed lengths, random bytes. distinct = (kind,path,stream hash,chunk plan) / (kind,hostile bytes)"
+		"every stream is read both into fresh messages and into one reused message object; every frame-body size from 0 to 4200 (quick) / 17000 (thorough) for every writer and marshal path; hostile streams: truncation at every offset, oversize/malformed lengths, random bytes. distinct = (kind,path,stream hash,chunk plan) / (kind,hostile bytes)"
 	rep.Assume("allocation is measured as runtime.MemStats.TotalAlloc delta around one ReadMsg call with GC disabled and a single goroutine")
 
 	old := debug.SetGCPercent(-1)
@@ -272,6 +272,38 @@ func TestVerifC18(t *testing.T) {
 	}
 	rep.Count("exhaustively_chunked_streams", exhaustiveStreams)
 	rep.Sample(map[string]interface{}{"kind": "varint", "sequence_payload_lengths": []int{0, 5, 0}, "chunking": "all 2^(n-1) compositions, plus (n>0,EOF) variant"})
+
+	// ---- 1b. every frame-body size in a range, for every writer and marshal path ------
+	// (an implementation may treat sizes differently around ANY internal buffer size, not only around the varint and
+	// limit boundaries: two frames of the swept size followed by a short one, read back in one piece)
+	{
+		rngS := verifkit.Rand("c18-sizes")
+		maxBody := verifkit.Pick(4200, 17000)
+		swept := 0
+		for body := 0; body <= maxBody; body++ {
+			n := payloadForFrame(body)
+			if n < 0 {
+				continue // no BytesValue has this encoded size (1 byte)
+			}
+			msgs := []*wrapperspb.BytesValue{c18Msg(rngS, n), c18Msg(rngS, n), c18Msg(rngS, 3)}
+			for _, k := range kinds {
+				for _, fast := range []bool{false, true} {
+					stream, err := c18Write(k, msgs, fast)
+					label := fmt.Sprintf("size-sweep %s fast=%v body=%d", k, fast, body)
+					if err != nil {
+						rep.Violate("C18/write-error/"+k.String(), err.Error(), label)
+						continue
+					}
+					res := c18ReadAll(rep, label, k, bytes.NewReader(stream), limit, len(msgs)+1)
+					c18JudgeRoundTrip(rep, label, k, msgs, res)
+					rep.Eval(1)
+				}
+			}
+			swept++
+		}
+		rep.Count("frame_body_sizes_swept", swept)
+		rep.Distinct(fmt.Sprintf("size-sweep 0..%d", maxBody))
+	}
 
 	// ---- 2. random sequences incl. boundary sizes, random chunkings ----------------
 	rng = verifkit.Rand("c18-large")
